@@ -76,7 +76,8 @@ CarryCDX(n, v) ==
 CDXClassNode(n, v) == n.type = 1 \/ FirstOf(Sq(n, "primary_purpose")) # 12
 
 DocTypes(d) == IF "metadata" \in DOMAIN d /\ "documentTypes" \in DOMAIN d.metadata
-               THEN [i \in DOMAIN d.metadata.documentTypes |-> d.metadata.documentTypes[i].type] ELSE <<>>
+               THEN [i \in DOMAIN d.metadata.documentTypes |->
+                       IF "type" \in DOMAIN d.metadata.documentTypes[i] THEN d.metadata.documentTypes[i].type ELSE -1] ELSE <<>>
 
 (* ---------------------- containment forest (C02, C03) ------------------- *)
 ContainsT(g) == {t \in Triples(g) : t[2] = 5 /\ t[1] # t[3]}
